@@ -377,6 +377,7 @@ def run_property(prop, tier, seed):
         units.append(('bsize',))
         for kn in ('CPAAttack', 'CPAReverse'):
             for gen in (False, True): units.append(('run', kn, False, gen))
+        units.append(('run', 'CPAAttack', True, True))      # with a convergence step as well: results must still be those of all traces (the convergence bookkeeping itself is C08)
     else:
         units.append(('convbs',))
         for gen in (False, True): units.append(('run', 'CPAAttack', True, gen))
